@@ -82,8 +82,9 @@ def gen_case(rng, allow, monitor, with_consts=True):
     allvars = sorted({v for nm in inl for v in F.variables(inl[nm])})
     # spelling of the interval bounds: plain numbers (default unit) or explicit units (same durations; default unit s, period 1 s)
     unit_mode = rng.choice([None, None, None, "s", "ms", "us"])
+    comments = [rng.choice([0, 1, 2, 3]) for _ in defs] if rng.random() < 0.3 else None
     return {"monitor": monitor, "defs": defs, "inl": inl, "f": inl["out"], "consts": consts, "cmap": cmap, "style": style,
-            "n": n, "vars": allvars or ["a"], "data": F.gen_trace(rng, allvars or ["a"], n), "unit_mode": unit_mode}
+            "n": n, "vars": allvars or ["a"], "data": F.gen_trace(rng, allvars or ["a"], n), "unit_mode": unit_mode, "comments": comments}
 
 
 def bound_fn(case):
@@ -116,6 +117,12 @@ def build(case, kind, modular=True, only=None):
     defs = case["defs"]
     names = [nm for nm, _ in defs[:-1]]
     lines = ["%s = %s;" % (nm, render_body(b, case["cmap"], bound_fn(case))) for nm, b in defs]
+    # comments of the specification language after an assertion (line comments run to the end of the line)
+    cm = case.get("comments")
+    if cm:
+        # (not after the last assertion: parse() appends a ';' to a text that does not end with one)
+        lines = [l + {0: "", 1: " // " + nm_, 2: " /* " + nm_ + " */", 3: "   // x >= 1; y = 2;"}[k if j < len(lines) - 1 else 0]
+                 for j, (l, (nm_, _), k) in enumerate(zip(lines, defs, cm))]
     if case["style"] == "text":
         spec = impl.make_spec(kind, "\n".join(lines), case["vars"], extra_decl=names, consts=case["consts"])
     else:
@@ -164,7 +171,7 @@ def run_discrete(case, monitor, modular=True, only=None, read_names=False):
 
 def rep_of(case):
     return {"monitor": case["monitor"], "defs": [[nm, F.to_proto(b)] for nm, b in case["defs"]], "consts": case["consts"],
-            "cmap": [[k, v] for k, v in case["cmap"].items()], "style": case["style"], "n": case["n"], "data": case["data"], "unit_mode": case.get("unit_mode"),
+            "cmap": [[k, v] for k, v in case["cmap"].items()], "style": case["style"], "n": case["n"], "data": case["data"], "unit_mode": case.get("unit_mode"), "comments": case.get("comments"),
             "spec": spec_text(case), "inlined": "out = " + F.to_text(case["f"])}
 
 
@@ -174,7 +181,7 @@ def case_of_rep(obj):
     allvars = sorted({v for nm in inl for v in F.variables(inl[nm])})
     return {"monitor": obj["monitor"], "defs": defs, "inl": inl, "f": inl["out"], "consts": [tuple(c) for c in obj["consts"]],
             "cmap": {float(k): v for k, v in obj["cmap"]}, "style": obj["style"], "n": obj["n"], "vars": allvars or ["a"],
-            "data": {k: [float(x) for x in v] for k, v in obj["data"].items()}, "unit_mode": obj.get("unit_mode")}
+            "data": {k: [float(x) for x in v] for k, v in obj["data"].items()}, "unit_mode": obj.get("unit_mode"), "comments": obj.get("comments")}
 
 
 def model_prog(cases):
